@@ -31,6 +31,20 @@ pub struct Col {
 pub struct Table {
     pub name: String,
     pub cols: Vec<Col>,
+    /// key groups declared at CREATE TABLE: (is primary key, column names)
+    pub keys: Vec<(bool, Vec<String>)>,
+    /// all constraints known for the table (incl. those added later), for checking observed contents:
+    /// NOT NULL column indices and key sets as column indices
+    pub not_null: Vec<usize>,
+    pub key_sets: Vec<Vec<usize>>,
+}
+
+/// setup step after the tables exist
+#[derive(Clone, Debug)]
+pub enum Item {
+    Row(String, Vec<Val>),
+    /// (table, SQL) of a constraint added later
+    Con(String, String),
 }
 
 #[derive(Clone, Debug)]
@@ -62,7 +76,7 @@ pub enum Op {
 #[derive(Clone, Debug)]
 pub struct Setup {
     pub tables: Vec<Table>,
-    pub rows: Vec<(String, Vec<Val>)>,
+    pub items: Vec<Item>,
     pub fresh: bool,
 }
 
@@ -89,16 +103,56 @@ fn ident(s: &str) -> bool {
     !s.is_empty() && s.chars().all(|c| c.is_ascii_lowercase() || c.is_ascii_digit()) && s.chars().next().unwrap().is_ascii_lowercase()
 }
 
+fn col_idx(t: &Table, name: &str) -> Option<usize> {
+    t.cols.iter().position(|c| c.name == name)
+}
+
+/// `a+b` → (false, [a, b]); `^a+b` → (true, …); all columns must exist
+fn parse_group(t: &Table, g: &str) -> Option<(bool, Vec<String>, Vec<usize>)> {
+    let (pk, body) = match g.strip_prefix('^') {
+        Some(r) => (true, r),
+        None => (false, g),
+    };
+    let names: Vec<String> = body.split('+').map(|x| x.to_string()).collect();
+    let idxs: Option<Vec<usize>> = names.iter().map(|n| col_idx(t, n)).collect();
+    let idxs = idxs?;
+    if idxs.is_empty() {
+        return None;
+    }
+    Some((pk, names, idxs))
+}
+
+fn register_key(t: &mut Table, pk: bool, idxs: &[usize]) {
+    if pk {
+        for i in idxs {
+            if !t.not_null.contains(i) {
+                t.not_null.push(*i);
+            }
+        }
+    }
+    t.key_sets.push(idxs.to_vec());
+}
+
 fn parse_table(spec: &str) -> Option<Table> {
-    // tab=t(k:big*,v:int!)
-    let (name, rest) = spec.split_once('(')?;
+    // tab=t(k:big*,v:int!/a+b/^a)
+    let parts: Vec<&str> = spec.split('(').collect();
+    if parts.len() != 2 {
+        return None;
+    }
+    let (name, rest) = (parts[0], parts[1]);
     let rest = rest.strip_suffix(')')?;
     if !ident(name) {
         return None;
     }
+    let mut groups = rest.split('/');
+    let cols_s = groups.next()?;
     let mut cols = Vec::new();
-    for c in rest.split(',') {
-        let (cn, ty) = c.split_once(':')?;
+    for c in cols_s.split(',') {
+        let cparts: Vec<&str> = c.split(':').collect();
+        if cparts.len() != 2 {
+            return None;
+        }
+        let (cn, ty) = (cparts[0], cparts[1]);
         let mut ty = ty.to_string();
         let mut not_null = false;
         let mut unique = false;
@@ -121,11 +175,27 @@ fn parse_table(spec: &str) -> Option<Table> {
     if cols.is_empty() {
         return None;
     }
-    Some(Table { name: name.to_string(), cols })
+    let mut t = Table { name: name.to_string(), cols, keys: vec![], not_null: vec![], key_sets: vec![] };
+    for (i, c) in t.cols.clone().iter().enumerate() {
+        if c.not_null {
+            t.not_null.push(i);
+        }
+    }
+    for (i, c) in t.cols.clone().iter().enumerate() {
+        if c.unique {
+            t.key_sets.push(vec![i]);
+        }
+    }
+    for g in groups {
+        let (pk, names, idxs) = parse_group(&t, g)?;
+        register_key(&mut t, pk, &idxs);
+        t.keys.push((pk, names));
+    }
+    Some(t)
 }
 
 fn parse_setup(s: &str) -> Option<Setup> {
-    let mut st = Setup { tables: vec![], rows: vec![], fresh: false };
+    let mut st = Setup { tables: vec![], items: vec![], fresh: false };
     for w in s.split_whitespace() {
         if w == "fresh" {
             st.fresh = true;
@@ -133,9 +203,41 @@ fn parse_setup(s: &str) -> Option<Setup> {
             st.tables.push(parse_table(t)?);
         } else if let Some(r) = w.strip_prefix("row=") {
             // row=t:1,10
-            let (t, vs) = r.split_once(':')?;
-            let vals: Option<Vec<Val>> = vs.split(',').map(parse_val).collect();
-            st.rows.push((t.to_string(), vals?));
+            let parts: Vec<&str> = r.split(':').collect();
+            if parts.len() != 2 {
+                return None;
+            }
+            let vals: Option<Vec<Val>> = parts[1].split(',').map(parse_val).collect();
+            st.items.push(Item::Row(parts[0].to_string(), vals?));
+        } else if let Some(r) = w.strip_prefix("con=") {
+            // con=t:a+b | con=t:^a | con=t:@a+b | con=t:!v     (the first table of that name)
+            let parts: Vec<&str> = r.split(':').collect();
+            if parts.len() != 2 {
+                return None;
+            }
+            let t = st.tables.iter_mut().find(|t| t.name == parts[0])?;
+            let c = parts[1];
+            let sql = if let Some(col) = c.strip_prefix('!') {
+                let i = col_idx(t, col)?;
+                if !t.not_null.contains(&i) {
+                    t.not_null.push(i);
+                }
+                format!("ALTER TABLE {} ALTER COLUMN {} SET NOT NULL", t.name, col)
+            } else if let Some(g) = c.strip_prefix('@') {
+                let (pk, names, idxs) = parse_group(t, g)?;
+                register_key(t, pk, &idxs);
+                format!("CREATE UNIQUE INDEX ix{}{} ON {} ({})", t.name, names.join(""), t.name, names.join(", "))
+            } else {
+                let (pk, names, idxs) = parse_group(t, c)?;
+                register_key(t, pk, &idxs);
+                format!(
+                    "ALTER TABLE {} ADD CONSTRAINT {} ({})",
+                    t.name,
+                    if pk { "PRIMARY KEY" } else { "UNIQUE" },
+                    names.join(", ")
+                )
+            };
+            st.items.push(Item::Con(parts[0].to_string(), sql));
         } else {
             return None;
         }
@@ -281,6 +383,9 @@ fn sql_create(t: &Table) -> String {
         }
     }
     cols.extend(uniq);
+    for (pk, names) in &t.keys {
+        cols.push(format!("{} ({})", if *pk { "PRIMARY KEY" } else { "UNIQUE" }, names.join(", ")));
+    }
     format!("CREATE TABLE {} ({})", t.name, cols.join(", "))
 }
 
@@ -316,13 +421,47 @@ fn show_dt(d: &DataType) -> String {
     }
 }
 
+/// do the observed committed contents of a table violate one of its constraints?
+fn rows_violate(t: &Table, cells: &[Vec<String>]) -> bool {
+    for r in cells {
+        for i in &t.not_null {
+            if r.get(*i).map(|x| x == "null").unwrap_or(true) {
+                return true;
+            }
+        }
+    }
+    for ks in &t.key_sets {
+        let keys: Vec<Vec<&String>> = cells.iter().map(|r| ks.iter().filter_map(|i| r.get(*i)).collect()).collect();
+        for a in 0..keys.len() {
+            if keys[a].iter().any(|x| *x == "null") {
+                continue;
+            }
+            for b in a + 1..keys.len() {
+                if keys[a] == keys[b] {
+                    return true;
+                }
+            }
+        }
+    }
+    false
+}
+
 fn show_result(r: Result<QueryResult, String>, is_read: bool, diag: &mut Vec<String>) -> String {
+    show_result_chk(r, is_read, diag, None)
+}
+
+/// `chk`: the table whose full committed contents this result is (then the constraints are checked on it)
+fn show_result_chk(r: Result<QueryResult, String>, is_read: bool, diag: &mut Vec<String>, chk: Option<&Table>) -> String {
     match r {
         Ok(QueryResult::Rows(rows)) => {
-            let mut out: Vec<String> =
-                rows.iterrows().map(|r| r.iter().map(show_dt).collect::<Vec<_>>().join(",")).collect();
+            let cells: Vec<Vec<String>> = rows.iterrows().map(|r| r.iter().map(show_dt).collect::<Vec<_>>()).collect();
+            let mut out: Vec<String> = cells.iter().map(|r| r.join(",")).collect();
             out.sort();
-            format!("[{}]", out.join(";"))
+            let pf = match chk {
+                Some(t) if rows_violate(t, &cells) => format!("!PROPFAIL:constraint:{}", t.name),
+                _ => String::new(),
+            };
+            format!("[{}]{}", out.join(";"), pf)
         }
         Ok(QueryResult::RowsAffected(n)) => {
             if is_read { format!("?affected{}", n) } else { format!("ok{}", n) }
@@ -337,7 +476,41 @@ fn show_result(r: Result<QueryResult, String>, is_read: bool, diag: &mut Vec<Str
 
 static COUNTER: AtomicU64 = AtomicU64::new(0);
 
+/// The library prints to stdout on some DDL statements (`CREATE UNIQUE INDEX`); stdout is the line protocol of
+/// `axh exec`, so it points to /dev/null while a case runs.
+struct QuietStdout {
+    saved: i32,
+}
+impl QuietStdout {
+    fn new() -> QuietStdout {
+        use std::io::Write;
+        let _ = std::io::stdout().flush();
+        unsafe {
+            let saved = libc::dup(1);
+            let null = libc::open(b"/dev/null\0".as_ptr() as *const libc::c_char, libc::O_WRONLY);
+            if null >= 0 {
+                libc::dup2(null, 1);
+                libc::close(null);
+            }
+            QuietStdout { saved }
+        }
+    }
+}
+impl Drop for QuietStdout {
+    fn drop(&mut self) {
+        use std::io::Write;
+        let _ = std::io::stdout().flush();
+        unsafe {
+            if self.saved >= 0 {
+                libc::dup2(self.saved, 1);
+                libc::close(self.saved);
+            }
+        }
+    }
+}
+
 pub fn run_case(line: &str) -> String {
+    let _quiet = QuietStdout::new();
     let Some((setup, ops)) = parse_case(line) else { return "bad-op".into() };
     let dir = std::env::temp_dir().join(format!("axv-hist-{}-{}", std::process::id(), COUNTER.fetch_add(1, Ordering::SeqCst)));
     let _ = std::fs::remove_dir_all(&dir);
@@ -363,9 +536,12 @@ fn run_in(dir: &std::path::Path, setup: &Setup, ops: &[Op]) -> String {
         // warm-up: make sure some transaction with id > 0 has committed
         let _ = db.execute("CREATE TABLE warmupzz (k BIGINT)");
     }
-    for (t, vals) in &setup.rows {
-        let s = Stmt::Ins { table: t.clone(), rows: vec![vals.clone()] };
-        if let Err(e) = db.execute(&sql_of(&s)) {
+    for it in &setup.items {
+        let sql = match it {
+            Item::Row(t, vals) => sql_of(&Stmt::Ins { table: t.clone(), rows: vec![vals.clone()] }),
+            Item::Con(_, sql) => sql.clone(),
+        };
+        if let Err(e) = db.execute(&sql) {
             return format!("bad-setup ## {}", e);
         }
     }
@@ -427,7 +603,11 @@ fn run_in(dir: &std::path::Path, setup: &Setup, ops: &[Op]) -> String {
             },
             Op::Auto(st) => {
                 let r = db.execute(&sql_of(st)).map_err(|e| e.to_string());
-                show_result(r, matches!(st, Stmt::Sel { .. }), &mut diag)
+                let chk = match st {
+                    Stmt::Sel { table, pred: None } => setup.tables.iter().find(|t| &t.name == table),
+                    _ => None,
+                };
+                show_result_chk(r, matches!(st, Stmt::Sel { .. }), &mut diag, chk)
             }
             Op::Batch(sts) => {
                 let sqls: Vec<String> = sts.iter().map(sql_of).collect();
@@ -455,7 +635,7 @@ fn run_in(dir: &std::path::Path, setup: &Setup, ops: &[Op]) -> String {
     let mut fin: Vec<String> = Vec::new();
     for t in &setup.tables {
         let r = db.execute(&format!("SELECT * FROM {}", t.name)).map_err(|e| e.to_string());
-        fin.push(format!("{}={}", t.name, show_result(r, true, &mut diag)));
+        fin.push(format!("{}={}", t.name, show_result_chk(r, true, &mut diag, Some(t))));
     }
     drop(db);
     let mut line = format!("{} | {}", outs.join(" "), fin.join(" "));
@@ -1110,10 +1290,321 @@ fn gen_c03(rng: &mut Rng, out: &mut Vec<Case>) {
     }
 }
 
+// ------------------------------------------------------------------------------------------------ C07 families
+//
+// Constraint-heavy histories (selected by AXH_PROP=C07).  One table `u` with a key declared in one of eight ways,
+// sequential autocommit statements and session blocks; after every commit `db sel u` shows the committed contents
+// (both sides print PROPFAIL when they violate a constraint).  Clean region: no UPDATE of a key column, no two open
+// transactions touching the same key, no delete + re-insert of a key inside one transaction, no statement failing
+// after its first row inside a session, no open reader while a non-key UPDATE is pending.
+
+struct C07Schema {
+    setup_tab: String,       // tab=… (+ con=… placed by the caller)
+    con: Option<String>,     // con=… added after or before the rows
+    multi: bool,             // key is (a, b) instead of (k)
+    key_nullable: bool,      // the key is UNIQUE (NULL allowed), not PRIMARY KEY
+    v_not_null: bool,
+    tag: &'static str,
+}
+
+fn c07_schema(rng: &mut Rng) -> C07Schema {
+    match rng.below(10) {
+        0 | 1 => C07Schema { setup_tab: "tab=u(k:big*,v:int!)".into(), con: None, multi: false, key_nullable: true, v_not_null: true, tag: "decl_unique_col" },
+        2 => C07Schema { setup_tab: "tab=u(k:big,v:int/^k)".into(), con: None, multi: false, key_nullable: false, v_not_null: false, tag: "decl_pk_create" },
+        3 => C07Schema { setup_tab: "tab=u(a:big,b:int,v:int/a+b)".into(), con: None, multi: true, key_nullable: true, v_not_null: false, tag: "decl_unique_multi" },
+        4 => C07Schema { setup_tab: "tab=u(a:big,b:int,v:int!/^a+b)".into(), con: None, multi: true, key_nullable: false, v_not_null: true, tag: "decl_pk_multi" },
+        5 => C07Schema { setup_tab: "tab=u(k:big,v:int)".into(), con: Some("con=u:k".into()), multi: false, key_nullable: true, v_not_null: false, tag: "decl_alter_unique" },
+        6 => C07Schema { setup_tab: "tab=u(k:big,v:int)".into(), con: Some("con=u:@k".into()), multi: false, key_nullable: true, v_not_null: false, tag: "decl_unique_index" },
+        7 => C07Schema { setup_tab: "tab=u(k:big,v:int)".into(), con: Some("con=u:^k".into()), multi: false, key_nullable: false, v_not_null: false, tag: "decl_alter_pk" },
+        8 => C07Schema { setup_tab: "tab=u(a:big,b:int,v:int)".into(), con: Some("con=u:@a+b".into()), multi: true, key_nullable: true, v_not_null: false, tag: "decl_unique_index_multi" },
+        _ => C07Schema { setup_tab: "tab=u(k:big*,v:int)".into(), con: Some("con=u:!v".into()), multi: false, key_nullable: true, v_not_null: true, tag: "decl_alter_not_null" },
+    }
+}
+
+/// key number n as column values: single → `n`; multi → `a b` with a = n / 3 + 1, b = n % 3 + 1
+fn c07_key(sc: &C07Schema, n: i64) -> String {
+    if sc.multi { format!("{} {}", n / 3 + 1, n % 3 + 1) } else { n.to_string() }
+}
+fn c07_where(_sc: &C07Schema, n: i64) -> String {
+    // rows are addressed through the non-key column v = 100 + n: a predicate on the key column would be answered
+    // through the unique index (an access-path question, C06), here every statement scans the table
+    format!("where v eq {}", 100 + n)
+}
+fn c07_row(sc: &C07Schema, n: i64) -> String {
+    format!("{} {}", c07_key(sc, n), 100 + n)
+}
+
+fn gen_c07(rng: &mut Rng, out: &mut Vec<Case>) {
+    let sc = c07_schema(rng);
+    let n_init = rng.range(1, 3);
+    let mut setup = sc.setup_tab.clone();
+    let con_first = rng.chance(1, 2);
+    if let (Some(c), true) = (&sc.con, con_first) {
+        setup.push_str(&format!(" {}", c));
+    }
+    for n in 1..=n_init {
+        setup.push_str(&format!(" row=u:{}", c07_row(&sc, n).replace(' ', ",")));
+    }
+    if let (Some(c), false) = (&sc.con, con_first) {
+        setup.push_str(&format!(" {}", c));
+    }
+    let mut live: Vec<i64> = (1..=n_init).collect();
+    let mut dead: Vec<i64> = Vec::new();
+    let mut next_key = n_init + 1;
+    let mut ops: Vec<String> = Vec::new();
+    let mut extra: Vec<&str> = vec!["c07", sc.tag];
+    // which finding feature (at most one) this case carries
+    let feature = match rng.below(100) {
+        0..=71 => "",
+        72..=79 => "update_unique_col",
+        80..=85 => "concurrent_same_key",
+        86..=90 => "reinsert_in_txn_rollback",
+        91..=93 => "rollback_key_update",
+        94..=96 => "key_update_null_or_multi",
+        _ => "failed_stmt_partial",
+    };
+    let n_steps = rng.range(4, 10);
+    let feature_at = rng.below(n_steps as u64) as i64;
+    for step in 0..n_steps {
+        if step == feature_at && !feature.is_empty() {
+            match feature {
+                "update_unique_col" if !sc.multi && !live.is_empty() => {
+                    // update away from a key, then the old key and the new key are inserted
+                    let k = *rng.pick(&live);
+                    let nk = next_key + 20;
+                    ops.push(format!("db upd u k set {} where v eq {}", nk, 100 + k));
+                    ops.push("db sel u".into());
+                    ops.push(format!("db ins u {} 7", k));
+                    ops.push(format!("db ins u {} 8", nk));
+                    ops.push("db sel u".into());
+                    if rng.chance(1, 2) && live.len() > 1 {
+                        // update TO an existing key: must be rejected
+                        let other = *live.iter().find(|x| **x != k).unwrap();
+                        ops.push(format!("db upd u k set {} where v eq {}", other, 100 + k));
+                        ops.push("db sel u".into());
+                    }
+                    extra.push("update_unique_col");
+                }
+                "concurrent_same_key" => {
+                    let k = next_key;
+                    next_key += 1;
+                    let e1 = gen_end(rng);
+                    let e2 = gen_end(rng);
+                    ops.push(format!(
+                        "s1 begin ; s2 begin ; s1 ins u {} ; s2 ins u {} ; s1 {} ; db sel u ; s2 {} ; db sel u",
+                        c07_row(&sc, k), c07_row(&sc, k), e1, e2
+                    ));
+                    extra.push("concurrent_same_key");
+                }
+                "reinsert_in_txn_rollback" if !live.is_empty() => {
+                    let k = *rng.pick(&live);
+                    ops.push(format!(
+                        "s1 begin ; s1 del u {} ; s1 ins u {} ; s1 sel u ; s1 {} ; db sel u ; db ins u {} ; db sel u",
+                        c07_where(&sc, k), c07_row(&sc, k), if rng.chance(2, 3) { "rollback" } else { "commit" }, c07_row(&sc, k)
+                    ));
+                    extra.push("reinsert_deleted_unique_key");
+                }
+                "rollback_key_update" if !sc.multi && !live.is_empty() => {
+                    let k = *rng.pick(&live);
+                    let nk = next_key + 30;
+                    ops.push(format!(
+                        "s1 begin ; s1 upd u k set {} where v eq {} ; s1 {} ; db sel u ; db ins u {} 5 ; db ins u {} 6 ; db sel u",
+                        nk, 100 + k, if rng.chance(1, 2) { "rollback" } else { "drop" }, nk, k
+                    ));
+                    extra.push("update_unique_col");
+                    extra.push("rollback_key_update");
+                }
+                "key_update_null_or_multi" if sc.key_nullable => {
+                    if sc.multi {
+                        let k = next_key;
+                        next_key += 1;
+                        ops.push(format!("db ins u {}", c07_row(&sc, k)));
+                        ops.push(format!("db upd u b set 9 where v eq {}", 100 + k));
+                        ops.push(format!("db upd u a set 9 where v eq {}", 100 + k));
+                    } else {
+                        ops.push("db ins u null 55".into());
+                        ops.push("db ins u null 56".into());
+                        ops.push(format!("db upd u k set {} where v eq 55", next_key + 40));
+                        ops.push(format!("db upd u k set {} where v eq 56", next_key + 40));
+                    }
+                    ops.push("db sel u".into());
+                    extra.push("update_unique_col");
+                    extra.push("key_update_null_or_multi");
+                }
+                "failed_stmt_partial" if !live.is_empty() => {
+                    let k = *rng.pick(&live);
+                    let f = next_key;
+                    next_key += 1;
+                    ops.push(format!(
+                        "s1 begin ; s1 ins u {} , {} ; s1 sel u ; s1 {} ; db sel u",
+                        c07_row(&sc, f), c07_row(&sc, k), gen_end(rng)
+                    ));
+                    extra.push("failed_stmt");
+                    extra.push("failed_stmt_partial");
+                }
+                _ => {}
+            }
+            continue;
+        }
+        match rng.below(12) {
+            0 | 1 | 2 => {
+                // fresh key
+                let k = next_key;
+                next_key += 1;
+                live.push(k);
+                ops.push(format!("db ins u {}", c07_row(&sc, k)));
+                ops.push("db sel u".into());
+            }
+            3 | 4 => {
+                // duplicate of a live key: rejected
+                if let Some(&k) = live.first() {
+                    let k = if rng.chance(1, 2) { k } else { *rng.pick(&live) };
+                    ops.push(format!("db ins u {} 7", c07_key(&sc, k)));
+                    ops.push("db sel u".into());
+                    extra.push("dup_key_insert");
+                }
+            }
+            5 => {
+                // delete, later maybe re-inserted by another transaction
+                if !live.is_empty() {
+                    let k = *rng.pick(&live);
+                    live.retain(|x| *x != k);
+                    dead.push(k);
+                    ops.push(format!("db del u {}", c07_where(&sc, k)));
+                    ops.push("db sel u".into());
+                }
+            }
+            6 => {
+                // re-insert of a key deleted by an earlier, committed transaction
+                if !dead.is_empty() {
+                    let k = dead.remove(0);
+                    live.push(k);
+                    ops.push(format!("db ins u {}", c07_row(&sc, k)));
+                    ops.push("db sel u".into());
+                    extra.push("reinsert_after_committed_delete");
+                }
+            }
+            7 => {
+                // NULL: in the key (allowed for UNIQUE, refused for PRIMARY KEY), or in a NOT NULL column
+                if rng.chance(1, 2) {
+                    if sc.multi {
+                        ops.push("db ins u 1 null 77".into());
+                        ops.push("db ins u 1 null 78".into());
+                    } else {
+                        ops.push("db ins u null 77".into());
+                        ops.push("db ins u null 78".into());
+                    }
+                    extra.push("null_in_key");
+                } else {
+                    let k = next_key;
+                    next_key += 1;
+                    ops.push(format!("db ins u {} null", c07_key(&sc, k)));
+                    if !sc.v_not_null {
+                        live.push(k);
+                    }
+                    extra.push("null_in_value");
+                }
+                ops.push("db sel u".into());
+            }
+            8 => {
+                // non-key update, autocommit (NOT NULL violation when set to null)
+                if !live.is_empty() && !sc.multi {
+                    let k = *rng.pick(&live);
+                    if rng.chance(1, 3) && sc.v_not_null {
+                        ops.push(format!("db upd u v set null where v eq {}", 100 + k));
+                    } else {
+                        // same value again: a new version of the row, the contents stay addressable by v
+                        ops.push(format!("db upd u v set {} where v eq {}", 100 + k, 100 + k));
+                    }
+                    ops.push("db sel u".into());
+                    extra.push("nonkey_update");
+                }
+            }
+            9 | 10 => {
+                // a session: inserts and deletes of keys nobody else touches, then commit / rollback / drop
+                let k1 = next_key;
+                let k2 = next_key + 1;
+                next_key += 2;
+                let end = gen_end(rng);
+                let mut blk = format!("s1 begin ; s1 ins u {} ; s1 ins u {}", c07_row(&sc, k1), c07_row(&sc, k2));
+                let mut deleted = None;
+                if !live.is_empty() && rng.chance(1, 2) {
+                    let k = *rng.pick(&live);
+                    blk.push_str(&format!(" ; s1 del u {}", c07_where(&sc, k)));
+                    deleted = Some(k);
+                }
+                if rng.chance(1, 2) {
+                    // duplicate of its own insert: rejected (first row → no partial effect)
+                    blk.push_str(&format!(" ; s1 ins u {} 9", c07_key(&sc, k1)));
+                }
+                blk.push_str(&format!(" ; s1 sel u ; s1 {}", end));
+                ops.push(blk);
+                ops.push("db sel u".into());
+                if end == "commit" {
+                    live.push(k1);
+                    live.push(k2);
+                    if let Some(k) = deleted {
+                        live.retain(|x| *x != k);
+                        dead.push(k);
+                    }
+                }
+                extra.push("session_block");
+            }
+            _ => {
+                // batch: two fresh keys, sometimes ending in a duplicate (whole batch refused)
+                let k1 = next_key;
+                let k2 = next_key + 1;
+                next_key += 2;
+                if rng.chance(1, 2) && !live.is_empty() {
+                    ops.push(format!("db batch ins u {} & ins u {} & ins u {} 9", c07_row(&sc, k1), c07_row(&sc, k2), c07_key(&sc, live[0])));
+                } else {
+                    ops.push(format!("db batch ins u {} & ins u {}", c07_row(&sc, k1), c07_row(&sc, k2)));
+                    live.push(k1);
+                    live.push(k2);
+                }
+                ops.push("db sel u".into());
+            }
+        }
+    }
+    let line = format!("hist {} | {}", setup, ops.join(" ; "));
+    let mut c = finish(line, Family::Clean, &extra);
+    // C07's feature → known-finding tag (the generic analysis of `finish` does not know the index features)
+    let kf = if extra.contains(&"reinsert_deleted_unique_key") {
+        Some("kf:reinsert_deleted_unique_key")
+    } else if extra.contains(&"concurrent_same_key") {
+        Some("kf:concurrent_same_key")
+    } else if extra.contains(&"update_unique_col") {
+        Some("kf:update_unique_col")
+    } else {
+        None
+    };
+    c.tags.retain(|t| t != "clean" && !t.starts_with("kf:") && t != "kf2" && t != "nt");
+    match kf {
+        Some(k) => c.tags.push(k.to_string()),
+        None if extra.contains(&"failed_stmt_partial") => c.tags.push("kf:failed_stmt_partial".to_string()),
+        // autocommit updates of a non-key column with no transaction open behave as specified
+        None => c.tags.push("clean".to_string()),
+    }
+    // non-trivial for C07: some statement or commit has to be decided by a constraint
+    if extra.iter().any(|e| {
+        matches!(*e, "dup_key_insert" | "null_in_key" | "null_in_value" | "update_unique_col" | "concurrent_same_key"
+            | "reinsert_deleted_unique_key" | "reinsert_after_committed_delete" | "failed_stmt" | "session_block")
+    }) {
+        c.tags.push("nt".to_string());
+    }
+    out.push(c);
+}
+
 impl Engine for HistEngine {
     fn gen_cases(&self, rng: &mut Rng, tier: Tier) -> Vec<Case> {
         let mut out = Vec::new();
         let quick = tier == Tier::Quick;
+        if std::env::var("AXH_PROP").as_deref() == Ok("C07") {
+            for _ in 0..(if quick { 1500 } else { 15000 }) {
+                gen_c07(rng, &mut out);
+            }
+            return out;
+        }
         // (1) program pairs, all interleavings when there are at most 20, else 20 sampled ones
         for _ in 0..(if quick { 40 } else { 150 }) {
             let n = rng.range(1, 2) as usize;
